@@ -1,4 +1,5 @@
 import FP.Model.Enc.Parse
+import FP.Model.Enc.Vars
 /-!
 # FP.Model.Enc.KLAE — `kLeastAbsErrors`
 
@@ -12,8 +13,6 @@ a `FlowInput` plus the `error_scaling` dictionary.
 namespace FP
 open Lean
 
-def eeVar (e : Edge) : Var := .uv "ee" e.1 e.2
-def weightsVar (i : Nat) : Var := .ix "weights" i
 
 structure ErrInput where
   fi : FlowInput
